@@ -301,15 +301,18 @@ Proof.
     + inversion H. subst. exists []. split; [reflexivity|]. left. split; reflexivity.
 Qed.
 
-Lemma extract_int_progress : forall l v r, extract_int l = ExtOk v r -> (length r < length l)%nat.
+Lemma extract_intr_progress : forall lo hi l v r, extract_intr lo hi l = ExtOk v r -> (length r < length l)%nat.
 Proof.
-  intros l v r H. unfold extract_int in H.
+  intros lo hi l v r H. unfold extract_intr in H.
   destruct (take_sign l) as [neg l1] eqn:T. apply take_sign_spec in T. destruct T as [sg [El _]].
   destruct (span_digits l1) as [ds rest] eqn:Sd. apply span_digits_length in Sd.
   destruct ds as [|d ds']; [discriminate|].
-  destruct ((-2147483648 <=? _) && _); [|discriminate]. inversion H. subst.
+  destruct ((lo <=? _) && _); [|discriminate]. inversion H. subst.
   rewrite app_length. cbn [length] in *. lia.
 Qed.
+
+Lemma extract_int_progress : forall l v r, extract_int l = ExtOk v r -> (length r < length l)%nat.
+Proof. exact (extract_intr_progress _ _). Qed.
 
 Lemma span_nonspace_spec : forall l w r, span_nonspace l = (w, r) ->
   l = w ++ r /\ forallb (fun c => negb (is_space c)) w = true /\
@@ -526,32 +529,32 @@ Proof.
 Qed.
 
 (* integers *)
-Lemma extract_int_complete : forall sg neg ds w2, sign_of sg neg -> digits ds -> ds <> [] -> all_space w2 ->
-  extract_int (sg ++ ds ++ w2) =
+Lemma extract_intr_complete : forall lo hi sg neg ds w2, sign_of sg neg -> digits ds -> ds <> [] -> all_space w2 ->
+  extract_intr lo hi (sg ++ ds ++ w2) =
   let v := if neg then - digits_val ds 0 else digits_val ds 0 in
-  if (-2147483648 <=? v) && (v <=? 2147483647) then ExtOk v w2 else ExtFail.
+  if (lo <=? v) && (v <=? hi) then ExtOk v w2 else ExtFail.
 Proof.
-  intros sg neg ds w2 Hsg Hds Hn Hw. destruct (all_space_stops w2 Hw) as [Wd _].
+  intros lo hi sg neg ds w2 Hsg Hds Hn Hw. destruct (all_space_stops w2 Hw) as [Wd _].
   assert (Sd : stops_sign (ds ++ w2)).
   { destruct ds as [|d ds']; [congruence|]. cbn [app]. apply digits_cons in Hds. destruct Hds as [Hd _].
     apply digit_not_sign in Hd. apply Hd. }
-  unfold extract_int. rewrite (take_sign_app sg neg _ Hsg Sd). rewrite (span_digits_app ds _ Hds Wd).
+  unfold extract_intr. rewrite (take_sign_app sg neg _ Hsg Sd). rewrite (span_digits_app ds _ Hds Wd).
   destruct ds as [|d ds']; [congruence|]. reflexivity.
 Qed.
 
-Lemma int_scalar_strict : forall data z,
-  scalar_value extract_int data = SAccept z <->
+Lemma intr_scalar_strict : forall lo hi data z,
+  scalar_value (extract_intr lo hi) data = SAccept z <->
   exists w1 tok w2, data = w1 ++ tok ++ w2 /\ all_space w1 /\ all_space w2 /\
-                    int_lit tok z /\ -2147483648 <= z <= 2147483647.
+                    int_lit tok z /\ lo <= z <= hi.
 Proof.
-  intros data z. rewrite (scalar_value_iff extract_int extract_int_progress). split.
+  intros lo hi data z. rewrite (scalar_value_iff (extract_intr lo hi) (extract_intr_progress lo hi)). split.
   - intros [rest [N [E Hs]]].
     destruct (skip_space_spec data) as [w1 [Ed [Hw1 _]]].
-    unfold extract_int in E.
+    unfold extract_intr in E.
     destruct (take_sign (skip_space data)) as [neg l1] eqn:T. apply take_sign_spec in T. destruct T as [sg [El Hsg]].
     destruct (span_digits l1) as [ds r] eqn:Sd. apply span_digits_spec in Sd. destruct Sd as [E1 [Hds _]].
     destruct ds as [|d0 ds']; [discriminate|].
-    destruct (((-2147483648 <=? _) && _)) eqn:Rg; [|discriminate].
+    destruct (((lo <=? _) && _)) eqn:Rg; [|discriminate].
     injection E as Ev Er. subst r.
     remember (skip_space data) as l' eqn:Hl'.
     exists w1, (sg ++ d0 :: ds'), rest. split; [|split; [exact Hw1|split; [exact Hs|split]]].
@@ -571,11 +574,23 @@ Proof.
     { subst data. rewrite skip_space_app by exact Hw1. rewrite Et. cbn [app]. apply skip_space_nonspace. exact Hc. }
     exists w2. rewrite Sk. repeat split.
     + rewrite Et. discriminate.
-    + rewrite <- Etok. rewrite <- app_assoc. rewrite (extract_int_complete sg neg ds w2 Hsg Hds Hn Hw2).
+    + rewrite <- Etok. rewrite <- app_assoc. rewrite (extract_intr_complete lo hi sg neg ds w2 Hsg Hds Hn Hw2).
       cbv zeta. rewrite Ez.
-      destruct (Z.leb_spec (-2147483648) z); [|lia]. destruct (Z.leb_spec z 2147483647); [|lia]. reflexivity.
+      destruct (Z.leb_spec lo z); [|lia]. destruct (Z.leb_spec z hi); [|lia]. reflexivity.
     + exact Hw2.
 Qed.
+
+Lemma int_scalar_strict : forall data z,
+  scalar_value extract_int data = SAccept z <->
+  exists w1 tok w2, data = w1 ++ tok ++ w2 /\ all_space w1 /\ all_space w2 /\
+                    int_lit tok z /\ -2147483648 <= z <= 2147483647.
+Proof. exact (intr_scalar_strict _ _). Qed.
+
+(* the pinned size_t rule accepted a negative number, reading it modulo 2^64 *)
+Lemma size_negative_refuted :   (* "-5" *)
+  scalar_value_lenient extract_size_pinned [45; 53] = SAccept 18446744073709551611 /\
+  scalar_value extract_size [45; 53] = SReject.
+Proof. split; vm_compute; reflexivity. Qed.
 
 (* every character of an accepted number text is white space or can occur in a number *)
 Lemma float_lit_chars : forall tok d, float_lit tok d -> forallb number_char tok = true.
